@@ -17,6 +17,7 @@ RULE = ("case = (A) explicit-hydrogen variant of a seed protein (2EQQ / 1vii + l
         "best two per donor; triplets / pairs within 1e-5 (nm, rad) or 1e-3 kcal/mol of a threshold are not compared; non-trivial = an "
         "accepted and a rejected candidate both within 10x the exclusion band, or freq strictly between observed frequencies, or periodic "
         "with a residue shifted across the cell")
+RULE += ('; widened: residues renamed to non-standard protein names; kabsch_sander asked again on the same object after a backbone atom was renamed in place and after the name was restored')
 QUICK = {"examples": 300, "shards": 12, "budget_s": 110}
 THOROUGH = {"examples": 2500, "shards": 16, "budget_s": 1700}
 ASSUMPTIONS = ["wernet_nilsson: the whole documented criterion is r_DA < 0.33 nm - 0.000044 nm * delta^2 (delta = H-D...A in degrees); no further cap",
